@@ -755,6 +755,9 @@ def t_taper1_growth(eng):
     has_max = eng.choose(2) == 1
     max_t = fresh_real('max_t') if has_max else None
     min_t = fresh_real('min_t')
+    # min_t here is the EFFECTIVE minimum max(2.5 r, minimum) (unit taper-effective-minimum); the preamble clamps minl to it
+    # (unit taper-preamble) and leaves with Taper_Error when even equal pieces would be shorter (unit C20/taper-too-short)
+    eng.assume(b_and(r_cmp('>=', min_t, 0), r_cmp('>=', minl, min_t), r_cmp('>=', L, r_mul(n, min_t))))
     env = {'p1': p1, 'p2': p2, 'n': n, 'lv': L, 'l': L, 'minl': minl, 'minc': minl, 'eps': eps, 'min_t': min_t, 'max_t': max_t}
     ys = SList()
 
@@ -766,7 +769,7 @@ def t_taper1_growth(eng):
                        r_cmp('>=', r_sub(L, r_mul(r_sub(P2(r_sub(i, 1)), 1), minl)),
                              r_mul(r_add(r_sub(n, i), 1), r_add(r_mul(P2(r_sub(i, 1)), minl), eps)))))
         b = b_and(r_cmp('==', st_, 1), num_eq(r_sub(L, d), r_mul(r_sub(n, i), inc1)), r_cmp('>', inc1, 0),
-                  r_cmp('>=', i, 1))
+                  r_cmp('>=', inc1, min_t), r_cmp('>=', i, 1))
         return b_and(num_eq(vals[('yield',)].length(), i), b_or(a, b))
 
     def check(e_, before, i, it, got):
@@ -780,6 +783,7 @@ def t_taper1_growth(eng):
         a, b = added[0]
         ln = r_sub(b, a)
         e_.oblige(n_ + 'piece-has-positive-length', r_cmp('>', ln, 0))
+        e_.oblige(n_ + 'piece-at-or-above-the-effective-minimum-max(2.5r,min)', r_cmp('>=', ln, min_t))
         was0 = e_.decide(r_cmp('==', before[('local', 'state')], 0))
         if e_.decide(r_cmp('==', i, 0)):
             return
@@ -829,6 +833,150 @@ U_TGROW = Unit(P + '/taper1-growth', ['taper1'], t_taper1_growth, SCH,
                                  'preamble is represented by two facts about minl and eps that are checked on its text'},
                canaries=[Canary('taper1-switches-too-early', 'taper1', _TaperSteadyEarly, [P + '/taper1[growth]/piece-at-']),
                          Canary('taper1-one-piece-tripled', 'taper1', _TaperTriple, [P + '/taper1[growth]/', P + '.taper1.growth'])])
+
+
+# ================================================================ taper2 (both ends): growth towards the middle (unbounded n)
+def t_taper2_growth(eng):
+    """slice of taper2: from the statement after `minc = ...` to the end, one-dimensional, p2 > p1 (minc = minl).
+    Preconditions from the preamble, as for taper1: eps = minl/10, minl >= effective minimum, l >= n * minimum, and
+    minl * npieces >= l with npieces = 2(2^(n/2) - 1) for even n, 2(2^((n-1)/2) - 1) + 2^((n-1)/2) for odd n.
+    Contract: the pieces double from end 1 (phase 0), are equal in the middle (phase 1), halve towards end 2 (phase 2);
+    in phases 0/1 each piece is between 1 and 2.1 times the previous one, in phase 2 the previous one is between 1 and
+    2.1 times the piece (growth seen from end 2); every piece is at least the effective minimum.
+    Invariant after i pieces (d = p - p1, s = n - bound the number of doubled pieces at each end):
+       phase 0:  d = (2^i - 1) minl, 2 i <= n, and (i >= 1) the previous step did not switch;
+       phase 1:  i <= bound, l - d = (bound - i) inc1 + (2^s - 1) minl, s >= 0, 2 s <= n,
+                 (s >= 1) 2^(s-1) minl <= inc1 <= 2.1 * 2^(s-1) minl,  inc1 >= minimum,  (s = 0) bound = n;
+       phase 2:  i >= bound, s >= 1, l - d = (2^(n-i) - 1) minl, and the same bounds on inc1."""
+    n_ = P + '/taper2[growth]/'
+    q = 'taper2'
+    f = eng.get_fnode(q)
+    from pyvc.source import find_stmt, loops_of
+    first = find_stmt(f, lambda x: isinstance(x, ast.Assign) and ast.unparse(x.targets[0]) == 'minc' and x in f.body)
+    k0 = f.body.index(first) + 1
+    loop = [x for x in f.body[k0:] if isinstance(x, ast.For)][0]
+    p1 = fresh_real('p1')
+    L = fresh_real('l')
+    n = fresh_int('n')
+    minl = fresh_real('minl')
+    min_t = fresh_real('min_t')
+    eng.assume(b_and(r_cmp('>=', n, 2), r_cmp('>', L, 0), r_cmp('>', minl, 0)))
+    eng.assume(b_and(r_cmp('>=', min_t, 0), r_cmp('>=', minl, min_t), r_cmp('>=', L, r_mul(n, min_t))))
+    p2 = r_add(p1, L)
+    eps = r_div(minl, 10)
+    pow2 = eng.uf('pow2', z3.IntSort(), z3.IntSort())
+    P2 = lambda x: SV(pow2(term(x)), 'int')
+    jj = z3.Int('jj')
+    eng.assume(SV(z3.ForAll([jj], z3.Implies(jj >= 0, z3.And(pow2(jj) >= 1, pow2(jj + 1) == 2 * pow2(jj)))), 'bool'))
+    eng.assume(SV(pow2(0) == 1, 'bool'))
+    odd = eng.choose(2) == 1
+    half = fresh_int('half')
+    eng.assume(r_cmp('>=', half, 1))
+    if odd:
+        eng.assume(num_eq(n, r_add(r_mul(2, half), 1)))
+        npieces = r_add(r_mul(2, r_sub(P2(half), 1)), P2(half))
+    else:
+        eng.assume(num_eq(n, r_mul(2, half)))
+        npieces = r_mul(2, r_sub(P2(half), 1))
+    eng.assume(r_cmp('>=', r_mul(minl, npieces), L))
+    has_max = eng.choose(2) == 1
+    max_t = fresh_real('max_t') if has_max else None
+    env = {'p1': p1, 'p2': p2, 'n': n, 'lv': L, 'l': L, 'minl': minl, 'minc': minl, 'eps': eps, 'min_t': min_t, 'max_t': max_t}
+    ys = SList()
+    f21 = Fraction('2.1')
+
+    def inc1_bounds(s_, inc1):
+        lowp = r_mul(P2(r_sub(s_, 1)), minl)
+        return b_or(r_cmp('==', s_, 0), b_and(r_cmp('>=', inc1, lowp), r_cmp('<=', inc1, r_mul(f21, lowp))))
+
+    def inv(e_, i, vals):
+        st_, pp, inc1, bound = vals[('local', 'state')], vals[('local', 'p')], vals[('local', 'inc1')], vals[('local', 'bound')]
+        d = r_sub(pp, p1)
+        s_ = r_sub(n, bound)
+        a = b_and(r_cmp('==', st_, 0), num_eq(d, r_mul(r_sub(P2(i), 1), minl)), r_cmp('<=', r_mul(2, i), n),
+                  b_or(r_cmp('==', i, 0),
+                       r_cmp('>=', r_sub(L, r_mul(2, r_mul(r_sub(P2(r_sub(i, 1)), 1), minl))),
+                             r_mul(r_sub(n, r_mul(2, r_sub(i, 1))), r_add(r_mul(P2(r_sub(i, 1)), minl), eps)))))
+        common = b_and(r_cmp('>=', s_, 0), r_cmp('<=', r_mul(2, s_), n), r_cmp('>', inc1, 0), r_cmp('>=', inc1, min_t),
+                       inc1_bounds(s_, inc1))
+        b = b_and(r_cmp('==', st_, 1), r_cmp('<=', i, bound), r_cmp('>=', i, s_), common,
+                  num_eq(r_sub(L, d), r_add(r_mul(r_sub(bound, i), inc1), r_mul(r_sub(P2(s_), 1), minl))),
+                  r_cmp('>=', i, 1) if False else True)
+        c = b_and(r_cmp('==', st_, 2), r_cmp('>=', i, bound), r_cmp('>=', s_, 1), common,
+                  num_eq(r_sub(L, d), r_mul(r_sub(P2(r_sub(n, i)), 1), minl)))
+        return b_and(num_eq(vals[('yield',)].length(), i), b_or(a, b, c))
+
+    def check(e_, before, i, it, got):
+        y0, y1 = before[('yield',)], got[('yield',)]
+        added = y1.chunks[-1][1] if y1.chunks and y1.chunks[-1][0] == 'conc' else []
+        if y0.chunks and y0.chunks[-1][0] == 'conc' and len(y1.chunks) == len(y0.chunks):
+            added = added[len(y0.chunks[-1][1]):]
+        if len(added) != 1:
+            e_.oblige(n_ + 'one-piece-per-iteration', False)
+            return
+        a, b = added[0]
+        ln = r_sub(b, a)
+        e_.oblige(n_ + 'piece-has-positive-length', r_cmp('>', ln, 0))
+        e_.oblige(n_ + 'piece-at-or-above-the-effective-minimum-max(2.5r,min)', r_cmp('>=', ln, min_t))
+        ph0 = 0 if e_.decide(r_cmp('==', before[('local', 'state')], 0)) else (1 if e_.decide(r_cmp('==', before[('local', 'state')], 1)) else 2)
+        ph1 = 0 if e_.decide(r_cmp('==', got[('local', 'state')], 0)) else (1 if e_.decide(r_cmp('==', got[('local', 'state')], 1)) else 2)
+        last = e_.decide(r_cmp('==', i, r_sub(n, 1)))
+        e_.cover('taper2-step-%d-to-%d%s' % (ph0, ph1, '-last' if last else ''))
+        if e_.decide(r_cmp('==', i, 0)):
+            return
+        # the previous piece
+        if ph0 == 0:
+            prev = r_mul(P2(r_sub(i, 1)), minl)
+        elif ph0 == 1:
+            prev = before[('local', 'inc1')]
+        else:
+            prev = r_mul(P2(r_sub(n, i)), minl)          # piece i-1 of phase 2 is 2^(n-(i-1)-1) minl
+        if ph1 == 2:
+            # halving part: seen from end 2 the pieces grow towards the middle
+            e_.oblige(n_ + 'towards-end-2:-previous-piece-between-1-and-2.1-times-this-one',
+                      b_and(r_cmp('>=', prev, ln), r_cmp('<=', prev, r_mul(f21, ln))))
+        else:
+            e_.oblige(n_ + 'from-end-1:-piece-between-1-and-2.1-times-the-previous-one',
+                      b_and(r_cmp('>=', ln, prev), r_cmp('<=', ln, r_mul(f21, prev))))
+    carried = [('yield',), ('local', 'p'), ('local', 'state'), ('local', 'inc1'), ('local', 'bound')]
+    spec = LoopSpec(carried, None, P + '.taper2.growth', [], check=check, inv=inv, exits=('raise:AssertionError', 'raise:ZeroDivisionError'))
+    eng.loop_specs[(q, loops_of(f).index(loop))] = spec
+    eng.frames.append({'fref': eng.fref(q), 'env': env, 'qual': q, 'node': f})
+    eng.yield_stack.append(ys)
+    env['inc1'] = 1
+    env['bound'] = n
+    try:
+        try:
+            for st in f.body[k0:]:
+                eng.exec_stmt(st, env)
+        except PyRaise as ex:
+            eng.oblige(n_ + 'the-remainder-is-never-exhausted-before-the-middle-part-starts', False, detail=ex.cls)
+            return
+    finally:
+        ys = eng.yield_stack.pop()
+        eng.frames.pop()
+    eng.cover('taper2-growth-%d-%d' % (odd, has_max))
+
+
+class _Taper2DecreaseOffByOne(ast.NodeTransformer):
+    def visit_Assign(self, node):
+        if ast.unparse(node.targets[0]) == 'inc' and 'n - i - 1' in ast.unparse(node.value):
+            node.value = ast.parse('(1 << (n - i)) * minc').body[0].value
+        return node
+
+
+class _Taper2BoundEarly(ast.NodeTransformer):
+    def visit_Assign(self, node):
+        if ast.unparse(node.targets[0]) == 'bound':
+            node.value = ast.parse('n - i - 1').body[0].value
+        return node
+
+
+U_T2GROW = Unit(P + '/taper2-growth', ['taper2'], t_taper2_growth, SCH,
+                slices={'taper2': 'from the statement after `minc = ...` to the end, one-dimensional end points; the preamble is represented '
+                                  'by facts about minl, eps and npieces (unit taper-preamble reads its text)'},
+                canaries=[Canary('taper2-halving-starts-one-power-too-high', 'taper2', _Taper2DecreaseOffByOne, [P + '/taper2[growth]/', P + '.taper2.growth']),
+                          Canary('taper2-middle-part-one-piece-short', 'taper2', _Taper2BoundEarly, [P + '/taper2[growth]/', P + '.taper2.growth'])])
 
 
 # ================================================================ taper1 / taper2: what the preamble leaves in minl
@@ -970,4 +1118,4 @@ U_TMIN = Unit(P + '/taper-effective-minimum', ['taper1', 'taper2'], t_taper_mini
               canaries=[Canary('taper1-minimum-replaces-the-radius-floor', 'taper1', _MinOr, [P + '/taper1[effective minimum]/']),
                         Canary('taper2-minimum-replaces-the-radius-floor', 'taper2', _MinOr, [P + '/taper2[effective minimum]/'])])
 
-UNITS = [U_SEG, U_EQ, U_CURVE, U_ARC, U_ROT, U_WT, U_CT, U_HELIX, U_TLOOP, U_TPRE, U_TGROW, U_TMIRROR, U_TMIN]
+UNITS = [U_SEG, U_EQ, U_CURVE, U_ARC, U_ROT, U_WT, U_CT, U_HELIX, U_TLOOP, U_TPRE, U_TGROW, U_T2GROW, U_TMIRROR, U_TMIN]
